@@ -271,6 +271,116 @@ def Outcome.tooBig (thr : K) : Outcome K → Bool
 
 end
 
+/-! ## Whole-method models (constructor, `initialize`, whole `finalize`)
+
+Added for the source translation of the complete methods (`Generated/AdaptersSrc.lean`,
+`Props/C17S.lean`); everything above is unchanged. -/
+
+/-- Which function `self.adapt_stat_func` is after `__init__`. -/
+inductive StatFuncSel (Fn : Type) | acceptStat | custom (f : Fn)
+  deriving DecidableEq, Repr
+
+/-- Which function `self.log_step_size_reducer` is after `__init__`: one of the three reducers of the
+module or a user function. -/
+inductive ReducerSel (Red : Type) | arith | geom | min | custom (f : Red)
+  deriving DecidableEq, Repr
+
+/-- The attributes stored by `DualAveragingStepSizeAdapter.__init__` (adapters.py:251-264). -/
+structure DAConfig (K Fn Red : Type) where
+  adaptStatTarget : K
+  adaptStatFunc : StatFuncSel Fn
+  regTarget : Option K
+  regCoeff : K
+  iterDecayCoeff : K
+  iterOffset : Nat
+  maxInitStepSizeIters : Nat
+  reducer : ReducerSel Red
+
+/-- `DualAveragingStepSizeAdapter.__init__`: every argument is stored unchanged (no validation), except
+that `None` for the statistic function selects `default_adapt_stat_func` (`stats["accept_stat"]`) and
+`None` for the reducer selects the **arithmetic** mean of the per-chain step sizes. -/
+def DAConfig.init {K Fn Red : Type} (adaptStatTarget : K) (adaptStatFunc : Option Fn)
+    (regTarget : Option K) (regCoeff iterDecayCoeff : K) (iterOffset maxInitStepSizeIters : Nat)
+    (reducer : Option Red) : DAConfig K Fn Red :=
+  ⟨adaptStatTarget, (match adaptStatFunc with | none => .acceptStat | some f => .custom f), regTarget,
+   regCoeff, iterDecayCoeff, iterOffset, maxInitStepSizeIters,
+   (match reducer with | none => .arith | some f => .custom f)⟩
+
+/-- Default values of the constructor arguments (exact rationals of the decimal literals; `true` = the
+default is `None`). -/
+structure DADefaults where
+  adaptStatTarget : Rat
+  adaptStatFuncNone : Bool
+  regTarget : Option Rat
+  regCoeff : Rat
+  iterDecayCoeff : Rat
+  iterOffset : Nat
+  maxInitStepSizeIters : Nat
+  reducerNone : Bool
+  deriving DecidableEq, Repr
+
+/-- The documented defaults (Hoffman & Gelman 2014): δ = 0.8, μ = `None` (→ log(10 ε₀)), γ = 0.05,
+κ = 0.75, t₀ = 10; at most 100 iterations of the initial search. -/
+def daDefaults : DADefaults := ⟨4 / 5, true, none, 1 / 20, 3 / 4, 10, 100, true⟩
+
+/-- Defaults of both metric adapters: `reg_iter_offset = 5`, `reg_scale = 1e-3`. -/
+def metricAdapterDefaults : Nat × Rat := (5, 1 / 1000)
+
+/-- `initialize` of the dual-averaging adapter as a function of the natural logarithm and the step
+size found by the search: `DAState.init` with `log(10 * init_step_size)`. -/
+def DAState.initialize {K : Type} [Zero K] [Mul K] [NatCast K] (regTargetParam : Option K)
+    (log : K → K) (initStepSize : K) : DAState K :=
+  DAState.init regTargetParam (log (((10 : Nat) : K) * initStepSize))
+
+/-- The matrix class of the new metric. -/
+inductive MetricClass | positiveDiagonal | densePositiveDefinite
+  deriving DecidableEq, Repr
+
+/-- `transition.system.metric = <cls>(<est>).inv`: the class applied to the (regularised) estimate and
+whether the inverse is taken (`est` is one entry of the array handed to the constructor). -/
+structure MetricAssign (K : Type) where
+  cls : MetricClass
+  inverse : Bool
+  est : K
+  deriving DecidableEq, Repr
+
+/-- The value (diagonal entry) of a diagonal metric described by a `MetricAssign`. -/
+def MetricAssign.diagEntry {K : Type} [One K] [Div K] (a : MetricAssign K) : K :=
+  if a.inverse then metricDiag a.est else a.est
+
+/-- The accumulation block of `finalize` (adapters.py:480-505 / 608-635): a single adapter state (a
+`dict`) is used as it is, a list of states is merged in list order.  Only `n_iter` and the estimate are
+used afterwards. -/
+def accumulate {K : Type} [Zero K] [One K] [Add K] [Sub K] [Mul K] [Div K] [NatCast K] :
+    CState K ⊕ List (CState K) → Option (Nat × K)
+  | .inl s => some (s.iter, s.c)
+  | .inr l => (merge l).map (fun a => (a.iter, a.c))
+
+/-- One pass of the final loop of `finalize` (adapters.py:511-514 / 641-644): `chain_state.pos =
+chain_state.pos` (`clear`: drops every cached value depending on the position, in particular those
+computed with the previous metric), then the momentum is redrawn with the chain's own generator under
+the new metric. -/
+def refreshChain {Met St Rng Mom : Type} (clear : St → St) (setMom : St → Mom → St)
+    (sample : Met → St → Rng → Mom) (m : Met) (c : St × Rng) : St :=
+  let s := clear c.1
+  setMom s (sample m s c.2)
+
+/-- The whole `finalize` of a metric adapter for one entry of the estimate: accumulate, raise for
+fewer than two samples, normalise and regularise (`fin`), build the new metric (`mk` abstracts the
+matrix classes), refresh every chain.  Result: the new metric and the updated chain states. -/
+def finalizeWhole {K Met St Rng Mom : Type} [Zero K] [One K] [Add K] [Sub K] [Mul K] [Div K] [NatCast K]
+    (cls : MetricClass) (fin : CState K → Except AdaptErr K) (mk : MetricAssign K → Met)
+    (clear : St → St) (setMom : St → Mom → St) (sample : Met → St → Rng → Mom)
+    (x : CState K ⊕ List (CState K)) (chains : List (St × Rng)) : Except AdaptErr (Met × List St) :=
+  match accumulate x with
+  | none => .error .tooFewSamples
+  | some (n, est) =>
+    match fin ⟨n, 0, 0, est, false⟩ with
+    | .error e => .error e
+    | .ok v =>
+      let m := mk ⟨cls, true, v⟩
+      .ok (m, chains.map (refreshChain clear setMom sample m))
+
 /-! ## Exact linear algebra used by the driver for `DensePositiveDefiniteMatrix(cov).inv`
 
 "Inverses are checked data": the driver computes `X` by Gauss–Jordan elimination over `Rat`
